@@ -233,6 +233,8 @@ StatusTags(exp, got) ==
        \* (C02: "for any 15 data words and coin there is exactly one check word that validates" - a phrase that is valid
        \* and is refused, for whatever reason, leaves its 15 data words with no check word that validates)
        \cup (IF exp = StOK /\ got # StOK THEN {"C02"} ELSE {})
+       \* (... and a seed handed out where none is due is the "never success" of C02 and of C05)
+       \cup (IF got = StOK /\ exp # StOK THEN {"C02", "C05"} ELSE {})
 
 \* the ledger: what may be live after the call
 LedgerConds(r, newblk) ==
@@ -240,7 +242,8 @@ LedgerConds(r, newblk) ==
                   THEN call.blocks0 \ {heap[call.a.h].blk}
                   ELSE IF newblk # 0 THEN call.blocks0 \cup {newblk} ELSE call.blocks0
     \* (a failed call must leave no seed allocated: C14 says so too)
-    IN << Cond("no-block-leaked-or-lost", {"C15", "C13"} \cup (IF call.op \in ConstructorOps /\ newblk = 0 THEN {"C14"} ELSE {}),
+    IN << Cond("no-block-leaked-or-lost", {"C15", "C13"} \cup (IF call.op \in ConstructorOps /\ newblk = 0 THEN {"C14"} ELSE {})
+                                          \cup (IF call.op = "Load" /\ newblk = 0 THEN {"C06"} ELSE {}),
                DOMAIN blocks = expect) >>
 
 CommonConds(r) ==
@@ -257,8 +260,13 @@ DecodeExpected == DecodeOutcome(NormOf(call.a.str), call.a.coin, DecodeSel, mask
 LoadExpected == IF AllocFailed THEN StMemory ELSE LoadStatus(call.a.buf, mask)
 
 ConstructorConds(r, exp) ==
-    << Cond("status", StatusTags(exp, r.st) \cup (IF call.op = "Load" THEN {"C06"} ELSE {}), r.st = exp),
-       Cond("handle-iff-ok", {"C13", "C15"}, (r.st = StOK) <=> (r.h # 0)),
+    \* (with a normaliser that is not NFKD - the caller's business - the decomposed form is still what that function says:
+    \* a decoder that answers otherwise has normalised on its own, C18)
+    << Cond("status", StatusTags(exp, r.st) \cup (IF call.op = "Load" THEN {"C06"} ELSE {})
+                      \cup (IF call.op \in {"Decode", "DecodeX"} /\ call.a.idn THEN {"C18"} ELSE {}), r.st = exp),
+       \* (C06: "every other buffer yields the format, checksum or unsupported status ... and no seed"; C14: "a failed call
+       \* leaves no seed allocated")
+       Cond("handle-iff-ok", {"C13", "C15", "C14"} \cup (IF call.op = "Load" THEN {"C06"} ELSE {}), ((r.st = StOK) <=> (r.h # 0)) /\ ~r.outw),
        Cond("new-seed-block-from-this-call", {"C15", "C13"},
             r.st = StOK => (r.blk \in AllocdBlocks /\ r.blk \in DOMAIN blocks)),
        Cond("fresh-handle", {"C13"}, r.h # 0 => r.h \notin Handles) >>
